@@ -7,7 +7,8 @@
 //! every other port (allocated by /memory/0, or an ephemeral dial port) is named 100, 101, .. in order of appearance.
 //!
 //! Schedule: {"ops": [op..]}; transports live in slots 0..2, a dropped transport is replaced by a fresh one (new id)
-//!   {"a":"listen","t":slot,"p":k}        k = 0: /memory/0, else the private port k
+//!   {"a":"listen","t":slot,"p":k}        k = 0: /memory/0, else the private port k   (optional "sfx":"p2p" appends /p2p/<id>,
+//!                                        "sfx":"bad" appends /tcp/1 = not a memory address; also for dial)
 //!   {"a":"listenl","t":slot,"l":i}       listen on the (known) port of listener i  (i mod #listeners)
 //!   {"a":"listend","t":slot,"d":i}       listen on the (known) ephemeral port of dial i
 //!   {"a":"remove","t":slot,"l":i}        remove_listener(id of listener i) on the transport in slot t
@@ -99,6 +100,23 @@ fn addr(real: u64) -> Multiaddr {
     Multiaddr::empty().with(Protocol::Memory(real))
 }
 
+/// "p2p": /memory/N/p2p/<peer> (supported, same port); "bad": /memory/N/tcp/1 (not a memory address)
+fn addr_sfx(real: u64, sfx: &str) -> Multiaddr {
+    match sfx {
+        "p2p" => addr(real).with(Protocol::P2p(libp2p_identity::PeerId::random())),
+        "bad" => addr(real).with(Protocol::Tcp(1)),
+        _ => addr(real),
+    }
+}
+
+fn sfx_of(op: &Value) -> &'static str {
+    match op["sfx"].as_str() {
+        Some("p2p") => "p2p",
+        Some("bad") => "bad",
+        _ => "",
+    }
+}
+
 fn step(w: &mut World, op: &Value) -> Value {
     let a = op["a"].as_str().unwrap_or("");
     let slot = op["t"].as_u64().unwrap_or(0) as usize % 3;
@@ -126,13 +144,15 @@ fn step(w: &mut World, op: &Value) -> Value {
             let Some(real) = w.real(p) else { return json!({"e": "skip"}) };
             let id = ListenerId::next();
             let tid = w.trans[slot].0;
-            let res = w.trans[slot].1.as_mut().unwrap().listen_on(id, addr(real));
+            let sfx = sfx_of(op);
+            let res = w.trans[slot].1.as_mut().unwrap().listen_on(id, addr_sfx(real, sfx));
             match res {
                 Ok(()) => {
                     w.lids.push((id, if p == 0 { None } else { Some(p) }));
-                    json!({"e": "listen", "t": tid, "p": p, "res": "ok", "lid": w.lids.len()})
+                    json!({"e": "listen", "t": tid, "p": p, "res": "ok", "lid": w.lids.len(), "sfx": sfx})
                 }
-                Err(_) => json!({"e": "listen", "t": tid, "p": p, "res": "err", "lid": 0}),
+                Err(libp2p_core::transport::TransportError::MultiaddrNotSupported(_)) => json!({"e": "listen", "t": tid, "p": p, "res": "unsupported", "lid": 0, "sfx": sfx}),
+                Err(_) => json!({"e": "listen", "t": tid, "p": p, "res": "err", "lid": 0, "sfx": sfx}),
             }
         }
         "remove" => {
@@ -165,13 +185,15 @@ fn step(w: &mut World, op: &Value) -> Value {
             let Some(p) = p else { return json!({"e": "skip"}) };
             let Some(real) = w.real(p) else { return json!({"e": "skip"}) };
             let tid = w.trans[slot].0;
-            let res = w.trans[slot].1.as_mut().unwrap().dial(addr(real), DialOpts { role: Endpoint::Dialer, port_use: PortUse::New });
+            let sfx = sfx_of(op);
+            let res = w.trans[slot].1.as_mut().unwrap().dial(addr_sfx(real, sfx), DialOpts { role: Endpoint::Dialer, port_use: PortUse::New });
             match res {
                 Ok(f) => {
                     w.dials.push(Dial { fut: Some(Box::pin(f)), dend: None, lend: None, dport: None });
-                    json!({"e": "dial", "t": tid, "p": p, "res": "ok", "d": w.dials.len()})
+                    json!({"e": "dial", "t": tid, "p": p, "res": "ok", "d": w.dials.len(), "sfx": sfx})
                 }
-                Err(_) => json!({"e": "dial", "t": tid, "p": p, "res": "err", "d": 0}),
+                Err(libp2p_core::transport::TransportError::MultiaddrNotSupported(_)) => json!({"e": "dial", "t": tid, "p": p, "res": "unsupported", "d": 0, "sfx": sfx}),
+                Err(_) => json!({"e": "dial", "t": tid, "p": p, "res": "err", "d": 0, "sfx": sfx}),
             }
         }
         "dialpoll" | "dropd" => {
@@ -346,8 +368,8 @@ fn run_online(runno: u64, rng: &mut impl Rng, len: usize) -> (Value, Vec<Value>)
         } else {
             let t = rng.gen_range(0..3);
             let mut cand: Vec<(u32, Value)> = vec![
-                (9, json!({"a": "listen", "t": t, "p": rng.gen_range(0..4)})),
-                (7, json!({"a": "dial", "t": t, "p": rng.gen_range(0..4)})),
+                (9, json!({"a": "listen", "t": t, "p": rng.gen_range(0..4), "sfx": (["", "", "", "p2p", "bad"][rng.gen_range(0..5)])})),
+                (7, json!({"a": "dial", "t": t, "p": rng.gen_range(0..4), "sfx": (["", "", "", "p2p", "bad"][rng.gen_range(0..5)])})),
                 (16, json!({"a": "poll", "t": t})),
                 (2, json!({"a": "dropt", "t": t})),
             ];
